@@ -36,7 +36,7 @@ struct PtrSeqBase {
         for (size_t i = b; i < hist.size(); ++i) h.push(hist[i]);
         w.set("what", what).set("op", op).set("history_tail", h);
         c.viol(fam + ":" + op + ":" + what, w);
-        if (++nfail >= 3) dead = true;
+        ++nfail; dead = true;   // the shadow model is not resynchronised: stop this history so that later ops are not blamed
     }
     void flushObjFaults() {
         if (gObj.faults.empty()) return;
